@@ -126,7 +126,7 @@ func (c19Prop) Gen(t *Tape, ph *PhaseCfg) Case {
 
 	// command-line tokens
 	argv := []string{"app"}
-	valToks := []string{"v1", "v2", "val", "true", "false", "x=y", "a b", "-dash", " padded ", "7", "é"}
+	valToks := []string{"v1", "v2", "val", "true", "false", "x=y", "a b", "-dash", " padded ", "7", "é", "1", "0", "t", "F", "TRUE", "False", "T", "f"}
 	var pending string // folded bare flags not yet flushed
 	flush := func() {
 		if pending != "" {
